@@ -1160,9 +1160,13 @@ func (g *G) emit(sc scope) Item {
 }
 
 func (g *G) value(sc scope, label string) KV {
-	switch g.intn(6, label+"_k") {
+	switch g.intn(8, label+"_k") {
 	case 0, 1:
 		return KV{Var: g.pick(sc.names, label+"_v")}
+	case 6:
+		return KV{Var: "bf"} // false: a value, and falsy
+	case 7:
+		return KV{Var: "el"} // an empty list: a value, truthy, prints as nothing
 	case 2:
 		i := []int{0, 7, 42}[g.intn(3, label+"_i")]
 		return KV{Int: &i}
@@ -1471,7 +1475,7 @@ func (g *G) cof(sc *scope, want string) Item {
 
 func (g *G) partial(sc *scope) []Item {
 	it := Item{K: "partial", Pre: g.pick(presR, "pp"), Ext: g.pick(extsR, "pe")}
-	it.Data = g.noNilFor(g.data(*sc, partialKeys, 3, "pd"), *sc)
+	it.Data = g.nilForPartial(g.data(*sc, partialKeys, 3, "pd"), *sc)
 	// what the body may read: a key every call binds to a value is a name; a key only some call binds (or binds to
 	// nil) may be unset
 	sure, maybe := boundKeys(it.Data), nilKeys(it.Data)
@@ -1479,7 +1483,7 @@ func (g *G) partial(sc *scope) []Item {
 	case 0, 1:
 		it.Held = true
 	case 2, 3:
-		it.Re = &Re{Data: g.noNilFor(g.data(*sc, partialKeys, 3, "rd"), *sc)}
+		it.Re = &Re{Data: g.nilForPartial(g.data(*sc, partialKeys, 3, "rd"), *sc)}
 		if sc.top && !g.textual && g.intn(2, "rl") == 0 {
 			pool := []string{"g0", "g1", "g2"}
 			if sc.depth == 0 && !sc.inLayout && !sc.inBlock {
@@ -1555,8 +1559,20 @@ func (g *G) partial(sc *scope) []Item {
 	return out
 }
 
-// noNilFor: nil is passed only for keys that are no names of the caller (whether binding a name the caller has to nil
-// hides the caller's value is not stated); other nils become a string.
+// nilForPartial: the data of a partial call may bind nil to a name the caller has (or may have): "in the caller's
+// scope extended with data" - the entry hides the caller's variable for the partial's text, which reads the key guarded
+// (it is in unsure below) and must find it unset. Not in or below layouts and stored blocks (opaque), where the keys are
+// not read at all.
+func (g *G) nilForPartial(kvs []KV, sc scope) []KV {
+	if sc.opaque {
+		return g.noNilFor(kvs, sc)
+	}
+	return kvs
+}
+
+// noNilFor (contentOf, BlockWith helper; partials in opaque documents): nil is passed only for keys that are no names
+// of the caller; other nils become a string. (Stored blocks: scope of definition vs scope of use is not stated; nil
+// shadowing through contentOf is asserted in the fixed phase 'shadow', where both are the same scope.)
 func (g *G) noNilFor(kvs []KV, sc scope) []KV {
 	for i := range kvs {
 		if !kvs[i].Nil {
@@ -1919,6 +1935,214 @@ func checkSees(r *vk.Run, c SeesCase) *vk.Fail {
 	return nil
 }
 
+// ---- (E) data entries that SHADOW a variable of the caller with nil / a falsy / a zero value --------------------------
+//
+// "partial(name, data) inserts what the named partial's text renders to in the caller's scope extended with data ... In
+// every case the text equals what the same source renders to when written inline in the equivalent scope": an entry of
+// data hides the caller's variable of the same name for the partial's text (and for what that text calls), whatever
+// the value is - nil, false, 0, 0.0, "", an empty list - exactly as `let x = V` does in a child scope. The same for
+// contentOf(name, data) ("renders with data added"). ORACLE: the textual inline - the composed-in source pasted into the
+// body of a one-turn loop (a child scope of the caller's) after one `let` per data entry. Errors as error / no error.
+type ShadowCase struct {
+	Val   string `json:"val"`   // nil | false | zero | fzero | empty | elist | str
+	Route string `json:"route"` // lit: hash literal in the call | held: hash bound to a variable, two calls | gomap: a Go map of the context, two calls
+	Outer string `json:"outer"` // what x is to the caller: none | ctx | let | loopvar | looplet | data (key of the enclosing partial's data) | plet (let of the enclosing partial)
+	Read  string `json:"read"`  // how the composed-in text reads x: if | not | emit
+	Where string `json:"where"` // body | nested (a partial the partial calls without data) | lay (the partial has a layout) | cof (stored block, contentOf) | layread (the layout reads x: not stated)
+}
+
+var shadowVals = []string{"nil", "false", "zero", "fzero", "empty", "elist", "str"}
+var shadowRoutes = []string{"lit", "held", "gomap"}
+var shadowOuters = []string{"none", "ctx", "let", "loopvar", "looplet", "data", "plet"}
+var shadowReads = []string{"if", "not", "emit"}
+var shadowWheres = []string{"body", "nested", "lay", "cof", "layread"}
+
+var shadowSrc = map[string]string{"nil": "nil", "false": "false", "zero": "0", "fzero": "0.0", "empty": `""`, "elist": "el", "str": `"in"`}
+
+func shadowGo(v string) interface{} {
+	switch v {
+	case "false":
+		return false
+	case "zero":
+		return 0
+	case "fzero":
+		return 0.0
+	case "empty":
+		return ""
+	case "elist":
+		return []string{}
+	case "str":
+		return "in"
+	}
+	return nil
+}
+
+func inList(x string, xs []string) bool {
+	for _, y := range xs {
+		if x == y {
+			return true
+		}
+	}
+	return false
+}
+
+func validShadow(c ShadowCase) bool {
+	if !inList(c.Val, shadowVals) || !inList(c.Route, shadowRoutes) || !inList(c.Outer, shadowOuters) || !inList(c.Read, shadowReads) || !inList(c.Where, shadowWheres) {
+		return false
+	}
+	// a stored block: only where the scope of definition and the scope of use are the same scope
+	return c.Where != "cof" || c.Outer == "none" || c.Outer == "ctx" || c.Outer == "let"
+}
+
+func buildShadow(c ShadowCase) (real, inline string, parts map[string]string) {
+	// oneTurn: src rendered in a child scope of the place where it stands, after the lets
+	nloop := 0
+	oneTurn := func(lets, src string) string {
+		nloop++
+		return "<%= for (z" + strconv.Itoa(nloop) + ") in one { %>" + lets + src + "<% } %>"
+	}
+	read := map[string]string{
+		"if":   `<%= if (x) { %>set:<%= x %><% } else { %>unset<% } %>`,
+		"not":  `<%= if (!x) { %>not<% } else { %>is<% } %>`,
+		"emit": `[<%= x %>]`,
+	}[c.Read]
+	body := read + ";<%= y %>"
+	v := shadowSrc[c.Val]
+	lets := "<% let x = " + v + ` %><% let y = "Y" %>`
+	parts = map[string]string{}
+	helper, name, layout := "partial", "p.html", ""
+	var defn, inl string
+	switch c.Where {
+	case "body":
+		parts[name] = body
+		inl = oneTurn(lets, body)
+	case "nested":
+		parts[name] = `<<%= partial("q.html") %>><%= y %>`
+		parts["q.html"] = body
+		inl = oneTurn(lets, "<"+oneTurn("", body)+"><%= y %>")
+	case "lay":
+		parts[name] = body
+		parts["l.html"] = "{<%= yield %>}"
+		layout = `, layout: "l.html"`
+		inl = "{" + oneTurn(lets, body) + "}"
+	case "layread":
+		parts[name] = body
+		parts["l.html"] = "{<%= yield %>|" + read + "}"
+		layout = `, layout: "l.html"`
+		inl = "" // not stated: what a layout sees of the partial's data
+	case "cof":
+		helper, name = "contentOf", "blk"
+		defn = `<% contentFor("blk") { %>` + body + `<% } %>`
+		inl = oneTurn(lets, body)
+	}
+	hash := "{x: " + v + `, y: "Y"` + layout + "}"
+	call := func(arg string) string { return "<%= " + helper + `("` + name + `", ` + arg + ") %>" }
+	var rl string
+	switch c.Route {
+	case "lit":
+		rl = call(hash)
+	case "held":
+		rl = "<% let hd = " + hash + " %>" + call("hd") + "~" + call("hd")
+		inl = inl + "~" + inl
+	case "gomap":
+		rl = call("gd") + "~" + call("gd")
+		inl = inl + "~" + inl
+	}
+	rl = defn + rl
+	sensor := `|<%= if (x) { %>after:<%= x %><% } %>`
+	switch c.Outer {
+	case "none", "ctx":
+		return rl + sensor, inl + sensor, parts
+	case "let":
+		pre := `<% let x = "caller" %>`
+		return pre + rl + sensor, pre + inl + sensor, parts
+	case "loopvar":
+		return "<%= for (x) in sl { %>" + rl + sensor + "<% } %>" + sensor, "<%= for (x) in sl { %>" + inl + sensor + "<% } %>" + sensor, parts
+	case "looplet":
+		pre := `<%= for (zj) in one { %><% let x = "blk" %>`
+		return pre + rl + sensor + "<% } %>" + sensor, pre + inl + sensor + "<% } %>" + sensor, parts
+	case "data":
+		parts["o.html"] = "(" + rl + sensor + ")"
+		return `<%= partial("o.html", {x: "outer"}) %>` + sensor, oneTurn(`<% let x = "outer" %>`, "("+inl+sensor+")") + sensor, parts
+	case "plet":
+		parts["o.html"] = `<% let x = "mid" %>(` + rl + sensor + ")"
+		return `<%= partial("o.html") %>` + sensor, oneTurn("", `<% let x = "mid" %>(`+inl+sensor+")") + sensor, parts
+	}
+	return "", "", parts
+}
+
+func checkShadow(r *vk.Run, c ShadowCase) *vk.Fail {
+	defer r.Watch("shadow", c)()
+	real, inline, parts := buildShadow(c)
+	data := func(feeder bool) map[string]interface{} {
+		m := map[string]interface{}{"one": []int{0}, "sl": []string{"a", "b"}, "el": []string{}}
+		if c.Outer == "ctx" {
+			m["x"] = "caller"
+		}
+		if feeder {
+			m["partialFeeder"] = func(name string) (string, error) {
+				t, ok := parts[name]
+				if !ok {
+					return "", fmt.Errorf("no partial %q", name)
+				}
+				return t, nil
+			}
+			gd := map[string]interface{}{"x": shadowGo(c.Val), "y": "Y"}
+			if _, ok := parts["l.html"]; ok {
+				gd["layout"] = "l.html"
+			}
+			m["gd"] = gd
+		}
+		return m
+	}
+	got := vk.Safe(func() (string, error) { return plush.Render(real, plush.NewContextWith(data(true))) })
+	if c.Where == "layread" {
+		r.Exclude("a layout reads a key of its partial's data: not stated")
+		if got.Panicked() {
+			return &vk.Fail{Kind: "shadow", Case: c, Msg: fmt.Sprintf("%s with partials %v: %s", real, parts, got)}
+		}
+		return nil
+	}
+	want := vk.Safe(func() (string, error) { return plush.Render(inline, plush.NewContextWith(data(false))) })
+	key, _ := json.Marshal(c)
+	cls := "shadow/value=" + c.Val + "/caller has the name"
+	if c.Outer == "none" {
+		cls = "shadow/value=" + c.Val + "/fresh name"
+	}
+	if want.Err != nil {
+		cls += "/error"
+	}
+	r.Count(string(key), cls)
+	r.Sample(func() interface{} {
+		return map[string]interface{}{"case": c, "template": real, "partials": parts, "inline": inline, "expected": want.String(), "got": got.String()}
+	})
+	if want.Panicked() {
+		return &vk.Fail{Kind: "shadow", Case: c, Msg: fmt.Sprintf("the inline source %q panicked: %s", inline, want)}
+	}
+	if got.Panicked() || (got.Err != nil) != (want.Err != nil) || (got.Err == nil && got.Out != want.Out) {
+		return &vk.Fail{Kind: "shadow", Case: c, Msg: fmt.Sprintf("%s with partials %v gave %s, but written inline in the equivalent scope (%s) it gives %s: an entry of data hides the caller's variable of that name whatever its value", real, parts, got, inline, want)}
+	}
+	return nil
+}
+
+func shadowCases() []ShadowCase {
+	var out []ShadowCase
+	for _, v := range shadowVals {
+		for _, ro := range shadowRoutes {
+			for _, o := range shadowOuters {
+				for _, rd := range shadowReads {
+					for _, w := range shadowWheres {
+						if c := (ShadowCase{Val: v, Route: ro, Outer: o, Read: rd, Where: w}); validShadow(c) {
+							out = append(out, c)
+						}
+					}
+				}
+			}
+		}
+	}
+	return out
+}
+
 // boundaryCases: empty bodies, blocks and layouts that are nothing but the yield, nil in a data map, odd content names.
 func boundaryCases() []Case {
 	mk := func(ct string, main ...Item) Case {
@@ -1985,7 +2209,7 @@ func bigCase(kind int, held bool) Case {
 
 // ---- the test --------------------------------------------------------------------
 
-const rule = "A case is a tree of documents: main template, partial bodies (nesting <= 3), layouts (a layout may wrap its yield in a partial that has a layout), contentFor blocks, contentOf default blocks, blocks of recording Go block helpers. Items: literal text (HTML/JS specials), <%= %> of context strings with HTML/JS specials, of loop variables, of data keys, a tick() counter (detects double / missing / cached evaluation), for loops, if/else, let (partials: must not leak; in the main document also of the names stored blocks and layouts read, between definition and use), partial(name, data[, layout]) with name = [directory part incl. dots, upper case, './', '_'] p<N> [extension in {.js,.html,.md,none,.js.html,.html.js}] and data keys shadowing caller variables (g*) or fresh (f*), values strings / ints / caller variables / nil (nil only for names the caller lacks); in a quarter of the cases the data map, layout entry included, is HELD in a variable and used by TWO calls; in a quarter the same partial NAME is called a second time with ANOTHER data map, optionally after a let of the caller in between (keys not bound by every call are read guarded); 0-3 contentFor names per document (not only identifiers: upper case, dot, spaces, colon, the empty name) incl. redefinition, contentFor also in an output tag, contentOf before/after the definition, with/without data (c*, shadowing s0), data held in a variable and used by two calls, with default block, undefined name; after a contentOf with data the CALLER reads a data key guarded (must be unset); block helpers that render their block once / twice / never / in a child scope with data (BlockWith) / take an argument / are a method of a context value; partial, contentOf and block helper calls also in SILENT tags (evaluated once, nothing inserted); partial and contentOf calls also written as <% let r = CALL %><%= r %>~<%= r %> (evaluated once, inserted twice) and as the result of a function defined and called on the spot; empty documents and blocks. contentType in {unset,text/html,application/javascript,text/javascript, the same with '; charset=..' parameters, text/plain}. ORACLE (metamorphic): every composition is replaced by an oracle helper that renders the composed-in text itself with plush.Render in a child of the caller's scope extended with data and leaves a placeholder which is substituted textually, unescaped, exactly once; JSEscapeString is applied by the oracle once per partial (and layout) whose name has a last extension other than .js / none under a JavaScript media type; layouts get the result as yield; an undefined contentOf without default must fail. For data-free cases additionally the TEXTUAL inline: the partial/layout/block source pasted in place of the tag must render the same. Whole outputs byte for byte, errors as error/no-error, plus the list of strings the block helpers received. (E) config matrix ct x ext x layout mode x layout ext x 11 bodies (incl. a call site in a loop fed from the loop variable, a name called twice with different data) x 4 data maps; (E) name spellings x content types with parameters x layout spellings; (E) block helper variants x tag opener x bodies x places; (E) boundaries (empty bodies, yield-only / two-yield layouts, nil data, odd content names) and one call site executed 1100 times; (E) all sequences of 16 content operations up to length 3 (thorough 4) x 3 placements; (R) random trees, random data-free trees with textual inlining, random trees rendered TWICE with plush.CacheEnabled on (second render on the cached templates). (E) a layout places the blocks its partial stored: fixed page / frame templates with outputs derived by hand - a block the partial's text stores with contentFor is what the contentOf of that partial's layout (and of the layout's layout) emits, with the data of contentOf added, for each call of the partial its own; Not asserted (never generated): what a layout sees of the partial's data or variables, contentFor names in generated trees, contentFor inside blocks/loops, scope of a stored block other than names nobody rebinds below the main document, visibility of the data map in a contentOf default block, let inside blocks, nil bound to a name the caller has, names that differ only by surrounding spaces. Non-trivial = at least one composition was executed and rendered non-empty text, or the case must fail. Distinct by case."
+const rule = "A case is a tree of documents: main template, partial bodies (nesting <= 3), layouts (a layout may wrap its yield in a partial that has a layout), contentFor blocks, contentOf default blocks, blocks of recording Go block helpers. Items: literal text (HTML/JS specials), <%= %> of context strings with HTML/JS specials, of loop variables, of data keys, a tick() counter (detects double / missing / cached evaluation), for loops, if/else, let (partials: must not leak; in the main document also of the names stored blocks and layouts read, between definition and use), partial(name, data[, layout]) with name = [directory part incl. dots, upper case, './', '_'] p<N> [extension in {.js,.html,.md,none,.js.html,.html.js}] and data keys shadowing caller variables (g*) or fresh (f*), values strings / ints / caller variables / false / an empty list / nil (nil also for names the caller has: the entry hides the caller's variable, the partial's text reads the key guarded and must find it unset; in and below layouts and stored blocks nil only for names the caller lacks); in a quarter of the cases the data map, layout entry included, is HELD in a variable and used by TWO calls; in a quarter the same partial NAME is called a second time with ANOTHER data map, optionally after a let of the caller in between (keys not bound by every call are read guarded); 0-3 contentFor names per document (not only identifiers: upper case, dot, spaces, colon, the empty name) incl. redefinition, contentFor also in an output tag, contentOf before/after the definition, with/without data (c*, shadowing s0), data held in a variable and used by two calls, with default block, undefined name; after a contentOf with data the CALLER reads a data key guarded (must be unset); block helpers that render their block once / twice / never / in a child scope with data (BlockWith) / take an argument / are a method of a context value; partial, contentOf and block helper calls also in SILENT tags (evaluated once, nothing inserted); partial and contentOf calls also written as <% let r = CALL %><%= r %>~<%= r %> (evaluated once, inserted twice) and as the result of a function defined and called on the spot; empty documents and blocks. contentType in {unset,text/html,application/javascript,text/javascript, the same with '; charset=..' parameters, text/plain}. ORACLE (metamorphic): every composition is replaced by an oracle helper that renders the composed-in text itself with plush.Render in a child of the caller's scope extended with data and leaves a placeholder which is substituted textually, unescaped, exactly once; JSEscapeString is applied by the oracle once per partial (and layout) whose name has a last extension other than .js / none under a JavaScript media type; layouts get the result as yield; an undefined contentOf without default must fail. For data-free cases additionally the TEXTUAL inline: the partial/layout/block source pasted in place of the tag must render the same. Whole outputs byte for byte, errors as error/no-error, plus the list of strings the block helpers received. (E) config matrix ct x ext x layout mode x layout ext x 11 bodies (incl. a call site in a loop fed from the loop variable, a name called twice with different data) x 4 data maps; (E) name spellings x content types with parameters x layout spellings; (E) block helper variants x tag opener x bodies x places; (E) boundaries (empty bodies, yield-only / two-yield layouts, nil data, odd content names) and one call site executed 1100 times; (E) all sequences of 16 content operations up to length 3 (thorough 4) x 3 placements; (R) random trees, random data-free trees with textual inlining, random trees rendered TWICE with plush.CacheEnabled on (second render on the cached templates). (E) a layout places the blocks its partial stored: fixed page / frame templates with outputs derived by hand - a block the partial's text stores with contentFor is what the contentOf of that partial's layout (and of the layout's layout) emits, with the data of contentOf added, for each call of the partial its own; (E) 'shadow': an entry of the data of partial / contentOf whose value is nil / false / 0 / 0.0 / the empty string / an empty list / a string and whose key is a name the caller has (context value, let, loop variable, let in a loop, key of the enclosing partial's data, let of the enclosing partial) or lacks, data written as a hash literal / held in a variable and used twice / a Go map of the context used twice, read by if / if-not / a bare output tag in the partial's text / in a partial that text calls without data / under a layout / in a stored block, the caller reading the name (guarded) afterwards - ORACLE the textual inline: the composed-in source in the body of a one-turn loop (a child scope of the caller's) after one let per data entry must render the same (error / no error; a layout that itself reads the key is generated, counted as excluded and only required not to panic); Not asserted (never generated): what a layout sees of the partial's data or variables, contentFor names in generated trees, contentFor inside blocks/loops, scope of a stored block other than names nobody rebinds below the main document, visibility of the data map in a contentOf default block, let inside blocks, nil bound through contentOf / BlockWith to a name the caller has in random trees (fixed phase 'shadow' only), names that differ only by surrounding spaces. Non-trivial = at least one composition was executed and rendered non-empty text, or the case must fail. Distinct by case."
 
 func setup(t *testing.T) *vk.Run {
 	r := vk.Start(t, "C17", rule,
@@ -2001,6 +2225,16 @@ func setup(t *testing.T) *vk.Run {
 			return &vk.Fail{Kind: "decode", Msg: "bad case"}
 		}
 		return checkSees(r, c)
+	})
+	r.Replayer("shadow", func(raw json.RawMessage) *vk.Fail {
+		var c ShadowCase
+		if f := vk.Decode(raw, &c); f != nil {
+			return f
+		}
+		if !validShadow(c) {
+			return &vk.Fail{Kind: "decode", Msg: "bad case"}
+		}
+		return checkShadow(r, c)
 	})
 	r.Replayer("compose", func(raw json.RawMessage) *vk.Fail {
 		var c Case
@@ -2127,6 +2361,11 @@ func TestProp(t *testing.T) {
 	}
 	r.Subspace("a layout places the blocks its partial stored: 3 content names x 5 block bodies x 4 ways of defining x 5 ways of using (plain, with data, with a default block, twice, from the layout's own layout) x content type x the partial called once / twice with different data", int64(len(sees)), true)
 	r.Parallel(int64(len(sees)), 0, func(i int64) { r.Check(checkSees(r, sees[i])) })
+
+	// (E) data entries that shadow a variable of the caller with nil / a falsy / a zero value
+	shs := shadowCases()
+	r.Subspace(fmt.Sprintf("data entries that shadow a caller's variable: %d values (nil, false, 0, 0.0, \"\", empty list, a string) x %d routes (hash literal, hash held in a variable and used twice, Go map used twice) x %d kinds of caller variable (none, context value, let, loop variable, let in a loop, key of the enclosing partial's data, let of the enclosing partial) x %d ways of reading x {partial's text, a partial that text calls, partial with a layout, stored block through contentOf, [layout reads: not asserted]}", len(shadowVals), len(shadowRoutes), len(shadowOuters), len(shadowReads)), int64(len(shs)), true)
+	r.Parallel(int64(len(shs)), 0, func(i int64) { r.Check(checkShadow(r, shs[i])) })
 
 	// (E) boundaries and many siblings
 	bcs := boundaryCases()
